@@ -235,6 +235,64 @@ def flow_safety_threshold(prog: Program, rep, RID: str):
         raise AnalysisError(f"flow-safe paths: stop test `{norm(t)}` has normal form `{P!r}` - not the excess-flow expression")
 
 
+def slot_symmetry(prog: Program, rep, RID: str):
+    """Safety fixing assigns sequence i to walk index i (and prunes walk i against it).  That is without loss of generality only
+    while the walk indices are interchangeable.  kFlowDecompCycles' given weights pin walk i to weight i, so every index-specific
+    safety effect has to be rejected or switched off when weights are given."""
+    from rules.semantic import enclosing_tests
+    from sa import boolnf as B
+    f = prog.own_method("AbstractWalkModelDiGraph", "_apply_safety_optimizations")
+    slot_opts = {}
+    for st in ast.walk(f.node):
+        if not isinstance(st, ast.If):
+            continue
+        opt = dotted(st.test)
+        if opt is None or not opt.startswith("self.optimize_with_"):
+            continue
+        body_txt = " ".join(norm(x) for x in st.body)
+        per_slot = "_apply_safety_optimizations_fix_zero_edges" in body_txt or \
+            any(isinstance(x, ast.For) and "walks_to_fix[" in " ".join(norm(y) for y in x.body) for x in st.body)
+        if per_slot:
+            slot_opts[opt[5:]] = st
+    if len(slot_opts) < 2:
+        raise AnalysisError(f"_apply_safety_optimizations: index-specific safety effects not recognised (found {sorted(slot_opts)})")
+    # option attribute -> option name
+    init = prog.own_method("AbstractWalkModelDiGraph", "__init__")
+    names = {}
+    for st in walk_no_nested(init.node):
+        if isinstance(st, ast.Assign) and len(st.targets) == 1 and (dotted(st.targets[0]) or "").startswith("self.") and isinstance(st.value, ast.Call) and \
+                norm(st.value.func) == "optimization_options.get" and st.value.args and isinstance(st.value.args[0], ast.Constant):
+            names[dotted(st.targets[0])[5:]] = st.value.args[0].value
+    g = prog.own_method("kFlowDecompCycles", "_encode_given_weights")
+    pins = any(isinstance(c, ast.Call) and isinstance(c.func, ast.Attribute) and c.func.attr == "add_constraint" and c.args and isinstance(c.args[0], ast.Compare)
+               and "path_weights_vars[" in norm(c.args[0].left) and isinstance(c.args[0].ops[0], ast.Eq) for c in ast.walk(g.node))
+    if not pins:
+        rep.ok(RID, "kFlowDecompCycles._encode_given_weights:pins", "given weights are not tied to walk indices", g.loc())
+        return
+    k_init = prog.own_method("kFlowDecompCycles", "__init__")
+    for attr, site in sorted(slot_opts.items()):
+        oname = names.get(attr)
+        if oname is None:
+            raise AnalysisError(f"option attribute self.{attr} is not read from optimization_options in AbstractWalkModelDiGraph.__init__")
+        key = f"kFlowDecompCycles:given-weights-vs-{oname}"
+        rejected = any(isinstance(st, ast.If) and f"'{oname}'" in norm(st.test) and any(isinstance(x, ast.Raise) for x in st.body) for st in ast.walk(g.node))
+        disabled = False
+        for st in walk_no_nested(k_init.node):
+            if isinstance(st, ast.Assign) and len(st.targets) == 1 and isinstance(st.targets[0], ast.Subscript) and \
+                    dotted(st.targets[0].value) == "self.optimization_options" and isinstance(st.targets[0].slice, ast.Constant) and \
+                    st.targets[0].slice.value == oname and isinstance(st.value, ast.Constant) and st.value.value is False:
+                tests = enclosing_tests(k_init.node, st)
+                if any("given_weights" in norm(t) for t, pol in tests):
+                    disabled = True
+        if rejected or disabled:
+            rep.ok(RID, key, f"with given weights `{oname}` is {'rejected' if rejected else 'switched off'}", g.loc())
+        else:
+            rep.violation(RID, key, f"given weights pin walk i to weight i, but the index-specific safety effect under `{oname}` "
+                          f"(AbstractWalkModelDiGraph._apply_safety_optimizations line {site.lineno}) stays active: sequence i need not be in the walk of weight i, "
+                          "and the edges forbidden for walk i can exclude the only valid decomposition (the guessed-weights model of MinFlowDecompCycles is infeasible)",
+                          g.loc())
+
+
 def check(prog: Program, rep):
     rep.rule("C06.R1", "mutate/restore pairing on the shared adjacency dict", floor=2)
     restore_rule(prog, rep, "C06.R1", "flowpaths.utils.safetypathcovers", "find_all_bridges")
@@ -246,3 +304,9 @@ def check(prog: Program, rep):
     conformance(prog, rep, "C06.R3", "C05")
     rep.rule("C06.R4", "flow-safe paths: the excess-flow threshold is strict positivity", floor=1)
     flow_safety_threshold(prog, rep, "C06.R4")
+    rep.rule("C06.R5", "index-specific safety effects presuppose interchangeable walks: rejected / switched off when given weights pin walks to indices", floor=2)
+    slot_symmetry(prog, rep, "C06.R5")
+    rep.rule("C06.R6", "flow-safe paths are used only for decompositions of the whole flow: nothing ignored, flow conserved, internal graph (C10.R8)", floor=2)
+    from rules import plumb
+    from rules.common import RuleProxy
+    plumb.whole_flow_shortcuts_rule(prog, RuleProxy(rep, "C06.R6"), "C10.R8")
